@@ -259,7 +259,7 @@ func c13Preempt(run *evid.Run, sw int, k1, point, k2 string, ahead bool, j *Jour
 		go func() { defer close(bDone); s.do(run, 1, k2, rand.New(rand.NewSource(2)), true) }()
 		select {
 		case <-bDone:
-		case <-time.After(25 * time.Millisecond):
+		case <-time.After(300 * time.Millisecond): // B is taken to be blocked behind A; only decides WHEN A resumes (on a loaded machine 25 ms cut runnable Bs short)
 			bBlocked = true
 		}
 		close(p.release)
